@@ -226,6 +226,12 @@ class Machine:
             m = lib_value((lo + hi) / 2, sample)
             if lo < oracle.frac(m) < hi:
                 libnodes.append(m)
+            # nodes next to a knot but not on it (well outside the 1e-9 of the tolerance count): not occurrences
+            for d in (F(1, 10 ** 7), F(1, 10 ** 5)):
+                if 4 * d < hi - lo:
+                    for x in (lib_value(lo + d, sample), lib_value(hi - d, sample)):
+                        if lo + d / 2 < oracle.frac(x) < hi - d / 2:
+                            libnodes.append(x)
         nodes = [oracle.frac(x) for x in libnodes]
         good = []
         for lu, u in zip(libnodes, nodes):
